@@ -14,7 +14,8 @@ import (
 var xpKindLean = map[string]string{"Sig": "Sig", "StdSig": "StdSig", "EnumSig": "EnumSig", "MuxSig": "MuxSig",
 	"SigType": "SigType", "SigUnit?": "Option SigUnit", "SigUnit": "SigUnit", "SigEnum": "SigEnum",
 	"EnumValue": "EnumValue", "ParentMsg": "ParentMsg", "Msg": "Msg", "Recv": "String",
-	"[]Recv": "List String", "[]Sig": "List Sig", "[][]Sig": "List (List Sig)", "[]EnumValue": "List EnumValue"}
+	"[]Recv": "List String", "[]Sig": "List Sig", "[][]Sig": "List (List Sig)", "[]EnumValue": "List EnumValue",
+	"NodeInt": "NodeInt", "Bus": "Bus", "[]NodeInt": "List NodeInt", "[]Msg": "List Msg", "[]SigEnum": "List SigEnum"}
 
 type xpK func() []string
 
@@ -432,6 +433,9 @@ func (t *xptr) callText(m string, c *ast.CallExpr) string {
 	if g.usesClr {
 		parts = append(parts, "clr")
 	}
+	if g.usesSort != "" {
+		t.fail(c, "call of %s, which sorts (the sort routine is a parameter of a root function only)", m)
+	}
 	if g.usesPm {
 		hasMsg := false
 		for _, p := range xpParamObjs(t.info, g.decl) {
@@ -626,8 +630,7 @@ func (t *xptr) sliced(s ast.Stmt) bool {
 			t.fail(s, "an if statement mixes skipped (attribute) and translated statements")
 		}
 	case *ast.RangeStmt:
-		r := xpRootIdent(x.X)
-		if r == nil || t.info.Uses[r] == nil || !t.taint[t.info.Uses[r]] {
+		if !t.hasSeed(x.X) { // the attribute assignments themselves, or a variable that holds them
 			return false
 		}
 		for _, kv := range []ast.Expr{x.Key, x.Value} {
@@ -695,7 +698,7 @@ func (t *xptr) facts(n ast.Node) xpFacts {
 			}
 			if m, ok := t.recvCall(y); ok && t.sigs[m] != nil {
 				g := t.sigs[m]
-				f.clr, f.pm, f.panics, f.st = f.clr || g.usesClr, f.pm || g.usesPm, f.panics || g.mayPanic, f.st || g.writesSt
+				f.clr, f.pm, f.panics, f.st = f.clr || g.usesClr, f.pm || t.needsPm(g), f.panics || g.mayPanic, f.st || g.writesSt
 			}
 		}
 		return true
